@@ -210,10 +210,11 @@ def enum_api_nlri():
             out.append(napi('nlri:host_octets', [1, S(s), m])); out.append(napi('nlri:host_octets', [2, [100], S(s), m]))
     for s in GOOD4 + GOOD6: out.append(napi('nlri:prefix_text', [1, S(s), 0]))
     # labeled: 24 * labels + prefix bits against the one-octet length, label values at 20 bits
-    for v6, s, w in ((False, '10.0.0.0', 32), (True, '2001:db8::', 128)):
+    for v6, s, w in ((False, '10.0.0.0', 32), (True, 'ff00::', 128)):
         for nl in (0, 1, 2, 3, 4, 5, 6, 9, 10, 11):
             for ln in sorted(set([0, w - 1, w, w + 1, 255 - 24 * nl - 1, 255 - 24 * nl, 255 - 24 * nl + 1, 256, 300])):
                 if ln < 0: continue
+                s = s if ln >= 8 else ('::' if v6 else '0.0.0.0')
                 out.append(napi('nlri:labeled_bits', [2, [100 + k for k in range(nl)], S(s), ln]))
                 for rdv in ([1, 65000, 1],):
                     for ln2 in sorted(set([ln, max(0, ln - 64)])):
@@ -316,7 +317,7 @@ def enum_local_path():
     for n in ([0], [1, S('bad'), 8], [1, S('10.0.0.0'), 33], [2, [], S('10.0.0.0'), 8], [2, [100], S('10.0.0.0'), 8], [3, [100], [1, 1, 1], S('2001:db8::'), 64], [1, S('2001:db8::'), 128]):
         for fam in (-1, (2 << 16) | 1, (1 << 16) | 128): out.append(lp('lp:nlri_forms', fam, n, [[6, 100]]))
     for ident in (0, 1, U32MAX): out.append(lp('lp:identifier', -1, pfx, [], ident))
-    for fam in ((65535 << 16) | 255, (65536 << 16) | 1, (65537 << 16) | 1, (1 << 16) | 256, (1 << 16) | 257, (1 << 16) | 65535, 0):
+    for fam in ((1 << 16) | 2, (65535 << 16) | 255, (65536 << 16) | 1, (65537 << 16) | 1, (1 << 16) | 256, (1 << 16) | 257, (1 << 16) | 65535, 0):
         out.append(lp('lp:family_edge', fam, pfx, [[6, 100]]))
     # a path that must tie / win / lose each comparator step against the competitor [ORIGIN igp, empty AS_PATH]
     for attrs in ([[6, 100]], [[6, 101]], [[6, 99]], [[3, [[2, [1]]]]], [[3, [[1, [1, 2, 3]]]]], [[3, [[3, [1, 2]]]]], [[2, 1]], [[2, 2]],
@@ -353,12 +354,14 @@ def enum_xnlri():
     # flowspec: the rule oneof, prefix / component types on both sides of the valid ranges, per family
     for fam in (FS4, FS6):
         v6 = fam == FS6
-        p = S('2001:db8::') if v6 else S('10.0.0.0')
+        p = S('ff00::') if v6 else S('10.0.0.0')
+        z = S('::') if v6 else S('0.0.0.0')
         for r in ([0], [3]): out.append(xn('fs:rule_oneof', fam, [10, [r]])); out.append(xn('fs:rule_oneof', fam, [10, ok + [r]]))
         for t in (0, 1, 2, 3, 255, 256, 257, 258): out.append(xn('fs:prefix_type', fam, [10, [[1, t, 8, p, 0]]]))
         for t in (0, 1, 2, 3, 4, 11, 12, 13, 14, 255, 256, 259, U32MAX): out.append(xn('fs:component_type', fam, [10, [[2, t, [[0x81, 1]]]]]))
         w = 128 if v6 else 32
-        for ln in (0, 1, 7, 8, 9, w - 1, w, w + 1, 255, 256, 256 + 8, U32MAX): out.append(xn('fs:prefix_len_edge', fam, [10, [[1, 1, ln, p, 0]]]))
+        for ln in (0, 1, 7, 8, 9, w - 1, w, w + 1, 255, 256, 256 + 8, U32MAX):
+            out.append(xn('fs:prefix_len_edge', fam, [10, [[1, 1, ln, p if 8 <= ln else z, 0]]])); out.append(xn('fs:prefix_len_edge', fam, [10, [[1, 2, ln, z, 0]]]))
         for off in (0, 1, 8, 255, 256, U32MAX): out.append(xn('fs:prefix_offset', fam, [10, [[1, 2, 8, p, off]]]))
         for s in ('', 'bad', '10.0.0.0', '2001:db8::', '10.0.0.0/8', '::ffff:1.2.3.4'): out.append(xn('fs:prefix_text', fam, [10, [[1, 1, 8, S(s), 0]]]))
         # operators: none, END missing / in the middle / on each, length bits set, op beyond u8, value at every width switch
@@ -388,14 +391,17 @@ def enum_xnlri():
                [2, 1, 2, S('bad'), 1], [2, 1, 3, S('1.2.3.4'), 1], [3, 1, 2, U32MAX, 65535], [3, 1, 2, 1, 65536], [3, 1, 9, 1, 1]):
         out.append(xn('rtc:route_target_forms', RTCF, [13, 65001, rt]))
     # MUP
-    for fam, p, a in ((MUP4, '10.0.0.0', '192.0.2.1'), (MUP6, '2001:db8::', '2001:db8::1')):
+    for fam, p, a in ((MUP4, '10.0.0.0', '192.0.2.1'), (MUP6, 'ff00::', '2001:db8::1')):
         w = 32 if fam == MUP4 else 128
-        for ln in (0, 1, w - 1, w, w + 1, 128, 129, 255, 256):
-            out.append(xn('mup:prefix_len_edge', fam, [14, rdv, S('%s/%d' % (p, ln))])); out.append(xn('mup:prefix_len_edge', fam, [16, rdv, S('%s/%d' % (p, ln)), 1, 9, w, S(a), 0, []]))
+        z = '0.0.0.0' if fam == MUP4 else '::'
+        for ln in (0, 1, 7, 8, 9, w - 1, w, w + 1, 128, 129, 255, 256):
+            q = p if ln >= 8 else z
+            out.append(xn('mup:prefix_len_edge', fam, [14, rdv, S('%s/%d' % (q, ln))])); out.append(xn('mup:prefix_len_edge', fam, [16, rdv, S('%s/%d' % (q, ln)), 0, 9, w, S(a), 0, []]))
+            out.append(xn('mup:prefix_host_octets', fam, [14, rdv, S('%s/%d' % (a, ln))]))
         for s in ('', p, '/8', p + '/', p + '/x', 'bad/8', p + '/8/8', p + '/-1', p + '/+8', p + '/08'): out.append(xn('mup:prefix_text', fam, [14, rdv, S(s)]))
         for s in ('', a, 'bad', '10.0.0.1', '::1'): out.append(xn('mup:address_text', fam, [15, rdv, S(s)])); out.append(xn('mup:address_text', fam, [17, rdv, w, S(s), 5]))
-        for q in (0, 255, 256, U32MAX): out.append(xn('mup:qfi_edge', fam, [16, rdv, S(p + '/24'), U32MAX, q, w, S(a), 0, []]))
-        for sl, src in ((0, ''), (0, a), (w, a), (w, ''), (w, 'bad'), (5, a)): out.append(xn('mup:source_address', fam, [16, rdv, S(p + '/24'), 1, 9, w, S(a), sl, S(src)]))
+        for q in (0, 255, 256, U32MAX): out.append(xn('mup:qfi_edge', fam, [16, rdv, S(p + '/8'), U32MAX, q, w, S(a), 0, []]))
+        for sl, src in ((0, ''), (0, a), (w, a), (w, ''), (w, 'bad'), (5, a)): out.append(xn('mup:source_address', fam, [16, rdv, S(p + '/8'), 1, 9, w, S(a), sl, S(src)]))
         for el in (0, 1, 31, 32, 33, 64, 128, 129, 160, 161, 255, 256, U32MAX): out.append(xn('mup:endpoint_len_edge', fam, [17, rdv, el, S(a), 0x01020304]))
         for rdx in ([0], [1, 65536, 1], [2, S('x'), 1]):
             for x in ([14, rdx, S(p + '/8')], [15, rdx, S(a)], [16, rdx, S(p + '/8'), 1, 9, w, S(a), 0, []], [17, rdx, w, S(a), 1]): out.append(xn('mup:rd_edge', fam, x))
